@@ -215,6 +215,11 @@ class ReorgDriver(IndexDriver):
         if any(t.endswith('flush_dbs') for t in tags):
             return 'flush_locked' if srv.bp.state_lock.locked() else 'flush_unlocked'
         if any(t.endswith('advance_block') for t in tags):
+            for x in w.sim.workers:
+                if x.tag.endswith('advance_block') and x.args:
+                    blk = w.tree.by_hex.get(getattr(x.args[0], 'hex_hash', None))
+                    if blk is not None and srv.bp.state is not None and blk.prev != srv.bp.state.tip:
+                        return 'advance_nonconnecting'     # the job that is about to detect a reorg
             return 'advance'
         if tags:
             return 'otherjob'
@@ -239,7 +244,8 @@ class ReorgDriver(IndexDriver):
             if state['fired'] or w.server is None or w.server.exit is not None:
                 return
             ph = self.phase()
-            if cond == 'any' or ph == cond or (cond == 'flush' and ph.startswith('flush')):
+            if cond == 'any' or ph == cond or (cond == 'flush' and ph.startswith('flush')) or \
+                    (cond == 'advance' and ph == 'advance_nonconnecting'):
                 state['hits'] += 1
                 if state['hits'] > skip:
                     state['fired'] = True
@@ -710,7 +716,8 @@ class ShutdownFamily(ReorgFamily):
 
     def gen(self, rng, tier, prop):
         k, n0, plan = self._base(rng, tier, [6, 12, 25, 40])
-        conds = ['advance', 'flush', 'flush', 'backup', 'fetch', 'idle', 'any', 'otherjob']
+        conds = ['advance', 'flush', 'flush', 'backup', 'fetch', 'idle', 'any', 'otherjob',
+                 'advance_nonconnecting']
         for _ in range(rng.randint(1, 3)):
             cond = rng.choice(conds)
             if cond in ('backup', 'idle', 'flush') and rng.random() < 0.7:
@@ -721,6 +728,12 @@ class ShutdownFamily(ReorgFamily):
             if cond == 'backup':
                 plan.append(dict(op='fork', depth=rng.choice([1, 2, 3]), extra=1, ntx=[3],
                                  remine=0.5, seed=rng.getrandbits(32)))
+            if cond == 'advance_nonconnecting':
+                # completed but unflushed blocks, then a fork discovered mid-batch
+                plan.append(dict(op='poker', on=False))
+                plan.append(dict(op='mine', n=rng.randint(2, 6), ntx=ntx_list(rng, 4), seed=rng.getrandbits(32)))
+                plan.append(dict(op='fork', depth=rng.choice([1, 2]), extra=1, ntx=[3], remine=0.5,
+                                 at=round(rng.uniform(0.0, 7.0), 3), seed=rng.getrandbits(32)))
             plan.append(dict(op='sigterm_when', cond=cond, skip=rng.choice([0, 0, 1, 2, 5, 11, 30]),
                              window=rng.choice([30.0, 120.0])))
             plan.append(dict(op='stop_check'))
